@@ -236,6 +236,20 @@ def main():
         only = (body["case"]["dataset"], body["case"]["key"])
     unknown = sorted({n for n, _, _ in rows if n not in DATASETS})
     ck.obligation("every shipped dataset has a key -> graph mapping in the check", not unknown, unknown)
+    # The graph a dataset row denotes must be the documented one whatever the library was used for before in this process:
+    # a history of other constructor calls (all sizes that occur as keys, shuffled, seeded) comes first.
+    hist = []
+    for n in range(3, 21):
+        hist += [(PG.sheveleva2, (n, k)) for k in range(1, n - 2)] + [(PG.koltsov3, (n, 2, k, 1)) for k in range(0, n - 3)]
+        hist += [(PG.koltsov3, (n, 1, 0, 1)), (PG.rapaport_m1, (n,)), (PG.three_cycles_01i, (n,)), (PG.lsl_cycles, (n,)), (PG.cubic_pancake, (n, 1 + n % 7))]
+        hist += [(PG.generalized_stars, (n, 1 + n % 2)), (PG.wrapped_k_cycles, (n, 2 + n % 2)), (PG.consecutive_k_cycles, (n, 2)), (PG.lrx, (n, 2))]
+    ck.rng.shuffle(hist)
+    for f_, a_ in hist:
+        try:
+            f_(*a_)
+        except Exception:  # pylint: disable=broad-except
+            pass
+    ck.count("constructor calls made before the datasets' graphs were built", len(hist))
     # group orders for permutation Cayley graphs without a closed formula (identity central state)
     jobs = {}
     defs = {}
